@@ -65,6 +65,9 @@ def run(prog, R, tier="quick", only_rule=None):
     c05.c05c(prog, R, rid="C08.h")
     c09.c09j(prog, R, rid="C08.i")
     c08j(prog, R)
+    # blob files written for filter replacements join the version in both flavours (shared with C17.d)
+    from rules.props import c17
+    c17.c17d(prog, R, rid="C08.k")
 
 
 def c08a(prog, R):
@@ -375,8 +378,8 @@ def with_merge_guards(prog, r):
         r.check(lets.get("has_diff") == "diff.is_some()", "%s|has_diff := diff.is_some()" % name, "has_diff is %s" % lets.get("has_diff"), "")
 
 
-def c08f(prog, R):
-    r = R.rule("C08.f", "a blob file is rewritten only if no table outside the compaction points into it", "P")
+def c08f(prog, R, rid="C08.f"):
+    r = R.rule(rid, "a blob file is rewritten only if no table outside the compaction points into it", "P")
     name = "compaction::worker::pick_blob_files_to_rewrite"
     f = prog.need(name)
     h = prog.hir.get(name)
